@@ -95,10 +95,20 @@ func zzMkStream(tag string, infos []*pcapmetadata.PcapInfo, v6 bool) *streams.St
 		hl = 16
 	}
 	s := &streams.Stream{
-		ClientAddr: zz.Bytes(tag+".caddr", hl),
-		ServerAddr: zz.Bytes(tag+".saddr", hl),
 		ClientPort: zz.U16(tag + ".cport"),
 		ServerPort: zz.U16(tag + ".sport"),
+	}
+	if zz.Param("addrmode", 0) == 0 {
+		s.ClientAddr = zz.Bytes(tag+".caddr", hl)
+		s.ServerAddr = zz.Bytes(tag+".saddr", hl)
+	} else {
+		// addresses from a two-element domain: sharing across streams/files is enumerated
+		s.ClientAddr = make([]byte, hl)
+		s.ServerAddr = make([]byte, hl)
+		s.ClientAddr[hl-1] = byte(1 + zz.Choice(tag+".caddr", 2))
+		s.ServerAddr[hl-1] = byte(1 + zz.Choice(tag+".saddr", zz.Param("saddrs", 2)))
+		s.ServerAddr[0] = 10
+		s.ClientPort, s.ServerPort = 1234, 80
 	}
 	if zz.Choice(tag+".udp", zz.Param("protocols", 1)) == 1 {
 		s.Flags = streams.StreamFlagsProtocolUDP
@@ -115,7 +125,7 @@ func zzMkStream(tag string, infos []*pcapmetadata.PcapInfo, v6 bool) *streams.St
 		idx += uint64(1 + zz.Choice(tag+".idxstep", zz.Param("idxsteps", 1)))
 		s.Packets = append(s.Packets, ci)
 		dir := reassembly.TCPDirClientToServer
-		if zz.Choice(tag+".dir", 2) == 1 {
+		if zz.Choice(tag+".dir", zz.Param("dirs", 2)) == 1 {
 			dir = reassembly.TCPDirServerToClient
 		}
 		s.PacketDirections = append(s.PacketDirections, dir)
@@ -219,6 +229,9 @@ func zzCheckStream(r *Reader, w zzWantStream) {
 	}
 
 	// lookup by first source packet
+	if zzSkipSourceLookup {
+		return
+	}
 	md := pcapmetadata.FromPacketMetadata(&s.Packets[0])
 	bySrc, err := r.StreamByFirstPacketSource(md.PcapInfo.Filename, md.Index)
 	zz.Assert(err == nil && bySrc != nil, "byfirstpacket.found")
